@@ -381,7 +381,7 @@ fn run(args: &Args, rep: &mut Report) {
         prop_par(
             "random-styles",
             args.seed,
-            tier.pick(60_000, 2_000_000),
+            tier.pick(60_000, 8_000_000),
             arb_style,
             |m, _| match check_style(*m).and_then(|_| check_components(*m)) {
                 Ok(()) => Verdict::ok((!m.is_plain()).then(|| digest_str(&m.describe()))),
@@ -399,7 +399,7 @@ fn run(args: &Args, rep: &mut Report) {
         prop_par(
             "format-grid",
             args.seed,
-            tier.pick(300, 6_000),
+            tier.pick(300, 40_000),
             arb_style,
             |m, acc| {
                 acc.evals = acc.evals.saturating_sub(1);
